@@ -29,6 +29,17 @@ func (ex *Exec) assertTerm(c *Term, label string) {
 		if !neg.IsConst() {
 			ex.sol.PopScope()
 		}
+		if s2 := ex.w.sol2; s2 != nil && !neg.IsConst() {
+			// re-ask the second solver from scratch: whole path condition + negated assertion
+			s2.Reset()
+			for _, t := range ex.pc {
+				s2.Assert(ex.tc, t)
+			}
+			if r2 := s2.Check(ex.tc, neg, false); r2 != Unsat {
+				ex.unknowns++
+				panic(pathEnd{kind: "unsupported", msg: "second solver does not confirm unsat (" + r2.String() + ") on assertion " + label})
+			}
+		}
 		return
 	case Unknown:
 		if !neg.IsConst() {
